@@ -362,6 +362,7 @@ func cmdCheck(args []string) int {
 	discharged, total, mustFail := 0, 0, 0
 	bySolver := map[string]int{}
 	solverSecs := 0.0
+	replayedFn := map[string]int{}
 	report := func(name, why string, o *Obligation) {
 		for _, kf := range known {
 			if kf.Status == "open" && kf.Property == *prop && kf.matches(name) {
@@ -371,10 +372,30 @@ func cmdCheck(args []string) int {
 			}
 		}
 		violations++
-		dir := writeReplay(*prop, name, why, o, solveOpts{timeoutS: to, seed: seed, outDir: outDir})
-		suffix := " no-failing-input-found"
+		// models and replays cost solver and `go test` time: they are produced for the first violations of a run and
+		// once per function (a broken function usually fails many obligations for one reason)
+		ro := solveOpts{timeoutS: minInt(to, 6), seed: seed, outDir: outDir}
+		fnKey := ""
 		if o != nil {
-			if ok := tryReplay(*prop, dir, o, solveOpts{timeoutS: to, seed: seed, outDir: outDir}); ok {
+			fnKey = o.Func
+		}
+		full := violations <= 8 && replayedFn[fnKey] < 2
+		var dir string
+		if full {
+			dir = writeReplay(*prop, name, why, o, ro)
+		} else {
+			saved := (*Obligation)(nil)
+			if o != nil {
+				c := *o
+				c.Status = "unknown" // no model extraction
+				saved = &c
+			}
+			dir = writeReplay(*prop, name, why, saved, ro)
+		}
+		suffix := " no-failing-input-found"
+		if o != nil && full {
+			replayedFn[fnKey]++
+			if ok := tryReplay(*prop, dir, o, ro); ok {
 				suffix = ""
 			}
 		}
